@@ -2003,13 +2003,12 @@ def inline_new_generators(project, rec):
             while i < len(blk):
                 st = blk[i]
                 new = None
-                if isinstance(st, ast.For) and not st.orelse and isinstance(st.iter, ast.Call) and isinstance(st.target, ast.Name):
+                if isinstance(st, ast.For) and not st.orelse and isinstance(st.iter, ast.Call) and isinstance(st.target, (ast.Name, ast.Tuple)):
                     got, drop = resolve(st.iter, caller)
                     if got is not None and not any(isinstance(n, ast.Continue) for b_ in st.body for n in ast.walk(b_)):
-                        tgt = st.target.id
 
-                        def consume(v, st=st, tgt=tgt):
-                            return [ast.copy_location(ast.Assign(targets=[ast.Name(id=tgt, ctx=ast.Store())], value=v), st)] + copy.deepcopy(st.body)
+                        def consume(v, st=st):
+                            return [ast.copy_location(ast.Assign(targets=[copy.deepcopy(st.target)], value=v), st)] + copy.deepcopy(st.body)
 
                         new = expand(got, drop, st.iter, fn, consume)
                 elif isinstance(st, ast.Assign) and len(st.targets) == 1 and isinstance(st.targets[0], ast.Name) and isinstance(st.value, ast.ListComp) and len(st.value.generators) == 1 and not st.value.generators[0].ifs and isinstance(st.value.generators[0].iter, ast.Call) and isinstance(st.value.generators[0].target, ast.Name):
